@@ -44,6 +44,23 @@ STRATA = {
     "column": (2000, 60000),
     "file": (1000, 8000),
 }
+# functions that must leave their arguments untouched (vf.core.PurityMonitor; '!' = the object itself is watched too)
+PURE = [
+    "biotite.structure.io.pdbx.encoding:ByteArrayEncoding.encode",
+    "biotite.structure.io.pdbx.encoding:ByteArrayEncoding.decode",
+    "biotite.structure.io.pdbx.encoding:FixedPointEncoding.encode",
+    "biotite.structure.io.pdbx.encoding:FixedPointEncoding.decode",
+    "biotite.structure.io.pdbx.encoding:IntervalQuantizationEncoding.encode",
+    "biotite.structure.io.pdbx.encoding:IntervalQuantizationEncoding.decode",
+    "biotite.structure.io.pdbx.encoding:RunLengthEncoding.encode",
+    "biotite.structure.io.pdbx.encoding:RunLengthEncoding.decode",
+    "biotite.structure.io.pdbx.encoding:DeltaEncoding.encode",
+    "biotite.structure.io.pdbx.encoding:DeltaEncoding.decode",
+    "biotite.structure.io.pdbx.encoding:IntegerPackingEncoding.encode",
+    "biotite.structure.io.pdbx.encoding:IntegerPackingEncoding.decode",
+    "biotite.structure.io.pdbx.encoding:StringArrayEncoding.encode",
+    "biotite.structure.io.pdbx.encoding:StringArrayEncoding.decode",
+]
 REQUIRED_ORACLES = [
     "int_roundtrip_exact", "string_roundtrip_exact", "fixedpoint_half_step", "interval_one_step",
     "float_bytes_exact", "chain_roundtrip", "compress_within_tolerance", "compress_exact",
